@@ -29,6 +29,7 @@ import "os"
 import "strconv"
 import "strings"
 import "unsafe"
+import "github.com/pbenner/autodiff/verifhook"
 /* matrix type declaration
  * -------------------------------------------------------------------------- */
 type DenseReal64Matrix struct {
@@ -278,6 +279,7 @@ func (matrix *DenseReal64Matrix) Tip() {
     }
     k = cycle
     for {
+      verifhook.Tick("tip.cycle")
       if k != mn-1 {
         k = matrix.rows*k % (mn-1)
       }
